@@ -127,6 +127,9 @@ def run(ctx):
     q = [F(1, 4), F(1, 2), F(3, 4)]
     run_case(ctx, ser(dict(kind="remove", U=[F(0)] * 3 + q + [F(1)] * 3, P=[(F(x),) for x in (1, 2, 0, 3, 1, 2)],
                            W=[F(1), F(1, 100), F(1, 100), F(1, 100), F(1, 100), F(1)], mode="forced", nodes=q, tol=None)))
+    # corpus: refitted weight exactly zero -> ZeroDivisionError instead of ValueError (repaired)
+    run_case(ctx, ser(dict(kind="remove", U=[F(-2)] * 3 + [F(-1, 2)] + [F(1)] * 3, P=[(F(4),), (F(9, 2),), (F(8),), (F(7),)],
+                           W=[F(2), F(1), F(1, 2), F(1)], mode="generic", nodes=[F(-1, 2)], tol="default")))
     # corpus: D5 witness (rational insert/remove)
     run_case(ctx, ser(dict(kind="remove", U=[F(0), F(1)], P=[(F(7),)], W=[F(4)], mode="roundtrip", nodes=[F(1, 2)])))
     import props.c04 as c04
@@ -140,6 +143,25 @@ def run(ctx):
         nodes = sorted(rng.sample(free, rng.randint(1, 2)))
         tol = "default" if i % 3 else F(1, 10**30)
         run_case(ctx, ser(dict(kind="remove", U=U, P=P, W=W, mode="roundtrip", nodes=nodes, twin=True, tol=tol)))
+    for i in range(budget(ctx, 24, 300)):
+        # a tolerance just below / just above what the removal really costs (measured on the model's forced removal):
+        # below must be refused, and whatever is accepted must respect the deviation bound
+        U, P, W = rand_curve(rng, pmax=3, nintmax=3, weights="none")
+        p, n, knots = kv_info(U)
+        if len(knots) <= 2:
+            continue
+        x = rng.choice(knots[1:-1])
+        nodes = [x] * rng.randint(1, min(2, U.count(x)))
+        mf = ctx["drv"].call("curve.remove", *curve_args(U, P, None), nodes, None)
+        if mf[0] != "ok":
+            continue
+        dd = ctx["drv"].call("rf.sqdist", *curve_args(U, P, None), *curve_args(*model_curve_state(mf[1])))
+        if dd[0] != "ok" or max(dd[1]) == 0:
+            continue
+        f_ = F(rng.choice([1, 2, 5, 8, 12, 16, 19, 21, 30]), 20)
+        tol_ = f_ * max(dd[1]) / (2 * max(1, U[-1] - U[0]))
+        ctx["rec"].count("adaptive-tolerance", "below" if f_ < 1 else "above")
+        run_case(ctx, ser(dict(kind="remove", U=U, P=P, W=None, mode="tolerant", nodes=nodes, tol=tol_)))
     for i in range(budget(ctx, 110, 1500)):
         mode = rng.choice(["roundtrip"] * 4 + ["generic", "generic", "tolerant", "forced", "absent", "endknot"])
         U, P, W = rand_curve(rng, pmax=3, nintmax=2, force_zero=(i % 7 == 0))
